@@ -260,7 +260,13 @@ func runOnce(kind, repo string, senders, per, rounds int, runID int) (row tr.M, 
 		if at, ok := savedAt[n]; ok && pd != "Y" {
 			persisted = at < e.at && string(savedBytes[n]) == string(e.b)
 		}
-		w = append(w, tr.M{"n": n, "pd": pd == "Y", "app": !admin, "persisted": persisted})
+		stored := pd == "Y"
+		if !stored {
+			if msgs, err := rf.st.MessageStore.GetMessages(n, n); err == nil && len(msgs) == 1 && string(msgs[0]) == string(e.b) {
+				stored = true
+			}
+		}
+		w = append(w, tr.M{"n": n, "pd": pd == "Y", "app": !admin, "persisted": persisted, "stored": stored})
 	}
 	row = tr.M{"run": runID, "store": kind, "senders": senders, "per": per, "submitted": int(submitted), "wire": w, "saved": savedNums,
 		"dupSave": dupSave, "nextOut": rf.st.NextSenderMsgSeqNum(), "windows": windows}
